@@ -1,14 +1,163 @@
 (* Property C11 — Sim::run succeeds exactly when every client finished Ok in
-   time.  Statements only; proofs in C11_proofs.v.  See DESIGN.md section 5 (C11). *)
+   time.  Statements only; proofs in C11_proofs.v.  See DESIGN.md section 5 (C11).
+
+   Reading guide.  A software is an arbitrary function from the local poll index
+   to the state of its JoinHandle after that Rt::tick (Pend / Ok_ / Err_ /
+   Panic_); `outcome_at r j` is what r's handle shows after the j-th step from
+   now, `pend_before r j` that it is still pending during the j steps before,
+   `done_ok_within r M` that it completes with Ok in one of the next M steps,
+   `fails_at r j` that it returns Err (or panics) in step j.  None of these
+   mentions the loop of Sim::run.  Every theorem holds for every state (any
+   history of registrations, earlier runs, crashes and bounces), every mix of
+   software and every host-order oracle `orc` (random_node_order on or off). *)
 From TV.Lib Require Import Base.
 From TV.SimCore Require Import Model Facts C11_proofs.
 Open Scope N_scope.
 
 (* With a positive tick the loop of Sim::run ends within duration/tick + 2
-   iterations (the fuel of the model is never exhausted), for every state,
-   every mix of software and every host-order oracle. *)
+   iterations.  (With tick = 0 and an unfinished client it does not end; the
+   guard is the hypothesis.) *)
 Theorem run_terminates : forall s orc,
-  0 < tick s -> snd (fst (fst (run s orc))) <> RunFuel.
+  0 < tick s -> rres_of (run s orc) <> RunFuel.
 Proof. exact run_terminates_lemma. Qed.
 
+(* Sim::run returns Ok  <->  there is a number of steps M >= 1 such that every
+   running client completes with Ok within the first M steps, no running
+   software (client or host) returns Err or panics within them, and none of the
+   steps before the M-th ended beyond the configured duration. *)
+Theorem c11_ok_iff : forall s orc,
+  0 < tick s -> existsb is_client (rts s) = true ->
+  (rres_of (run s orc) = RunOk <->
+   exists M, (1 <= M)%nat /\
+     Forall (fun r => running r = true -> is_client r = true -> done_ok_within r M) (rts s) /\
+     Forall (fun r => running r = true -> forall j, (j < M)%nat -> ~ fails_at r j) (rts s) /\
+     (M = 1%nat \/ elapsed s + N.of_nat (M - 1) * tick s <= duration s)).
+Proof. exact c11_ok_iff_lemma. Qed.
+
+(* ... and then the number of steps made is the least such M. *)
+Theorem c11_ok_steps : forall s orc,
+  existsb is_client (rts s) = true -> rres_of (run s orc) = RunOk ->
+  spec_ok s (nsteps_of (run s orc)) /\
+  forall M, spec_ok s M -> (nsteps_of (run s orc) <= M)%nat.
+Proof. exact c11_ok_steps_lemma. Qed.
+
+(* Without a registered client Sim::run returns Ok at once, without a step. *)
+Theorem c11_no_clients : forall s orc,
+  existsb is_client (rts s) = false -> run s orc = (s, RunOk, 0%nat, []).
+Proof. exact c11_no_clients_lemma. Qed.
+
+(* "As soon as": a run that fails with a software error (or panic) stops in the
+   very step m+1 in which the first software fails; nothing failed before; the
+   clock shows the m completed steps. *)
+Theorem c11_err_asap : forall s orc,
+  (rres_of (run s orc) = RunErr \/ rres_of (run s orc) = RunPanic) ->
+  exists m r,
+    nsteps_of (run s orc) = S m /\ In r (rts s) /\ running r = true /\ fails_at r m /\
+    (forall r', In r' (rts s) -> running r' = true -> forall j, (j < m)%nat -> ~ fails_at r' j) /\
+    elapsed (state_of (run s orc)) = elapsed s + N.of_nat m * tick s /\
+    (m = 0%nat \/ elapsed s + N.of_nat m * tick s <= duration s).
+Proof. exact c11_err_asap_lemma. Qed.
+
+(* The duration error comes in the first step that ends beyond the duration
+   (the step before it did not), with a client still pending and no software
+   failure so far. *)
+Theorem c11_timeout_asap : forall s orc,
+  rres_of (run s orc) = RunTimeout ->
+  exists m r,
+    nsteps_of (run s orc) = S m /\
+    duration s < elapsed s + N.of_nat (S m) * tick s /\
+    (m = 0%nat \/ elapsed s + N.of_nat m * tick s <= duration s) /\
+    In r (rts s) /\ running r = true /\ is_client r = true /\ pend_before r (S m) /\
+    (forall r', In r' (rts s) -> running r' = true -> forall j, (j <= m)%nat -> ~ fails_at r' j) /\
+    elapsed (state_of (run s orc)) = elapsed s + N.of_nat (S m) * tick s.
+Proof. exact c11_timeout_asap_lemma. Qed.
+
+(* The result class (Ok / software failure / duration), the number of steps and
+   the final clock are the same for every two order oracles; unless a software
+   failed the whole final state is the same.  (An Err and a panic in the same
+   step: which of the two surfaces depends on the order, hence the class.) *)
+Theorem c11_order_independent : forall s o1 o2,
+  rclass (rres_of (run s o1)) = rclass (rres_of (run s o2)) /\
+  nsteps_of (run s o1) = nsteps_of (run s o2) /\
+  (rclass (rres_of (run s o1)) <> 1 -> state_of (run s o1) = state_of (run s o2)) /\
+  elapsed (state_of (run s o1)) = elapsed (state_of (run s o2)).
+Proof. exact c11_order_independent_lemma. Qed.
+
+(* Host software that never finishes (or finishes Ok) does not prevent success. *)
+Theorem c11_hosts_dont_block : forall s orc M,
+  0 < tick s -> existsb is_client (rts s) = true -> (1 <= M)%nat ->
+  (forall r, In r (rts s) -> running r = true -> is_client r = true -> done_ok_within r M) ->
+  (forall r, In r (rts s) -> running r = true -> is_client r = false ->
+     forall j, (j < M)%nat -> outcome_at r j = Pend \/ outcome_at r j = Ok_) ->
+  (M = 1%nat \/ elapsed s + N.of_nat (M - 1) * tick s <= duration s) ->
+  rres_of (run s orc) = RunOk.
+Proof. exact c11_hosts_dont_block_lemma. Qed.
+
+(* Software that is not running (finished or crashed) is not polled by any
+   event: its poll counter and start counter do not move, it stays stopped, and
+   no clock read of it appears — unless the event is a Bounce naming it. *)
+Theorem c11_no_repoll : forall s e j r,
+  nth_error (rts s) j = Some r -> running r = false ->
+  exists r', nth_error (rts (fst (apply s e))) j = Some r' /\
+    ((running r' = false /\ polls r' = polls r /\ starts r' = starts r) \/
+     (exists hs, e = Bounce hs /\ In j hs)) /\
+    (forall o, In o (obs_log (snd (apply s e))) -> o_host o <> j).
+Proof. exact c11_no_repoll_lemma. Qed.
+
+(* Sim::step is consistent with Sim::run: a run of n steps is exactly n calls
+   of step with the same oracle — same final state and clock reads — whose
+   results are Ok(false) n-1 times and then the result of the run
+   (Ok(true) for Ok, the error for an error). *)
+Theorem c11_step_consistent : forall s orc,
+  0 < tick s -> existsb is_client (rts s) = true ->
+  exists m last,
+    nsteps_of (run s orc) = S m /\
+    iter_steps (S m) orc 0 s [] =
+      (state_of (run s orc), repeat (ROk false) m ++ [last], snd (run s orc)) /\
+    final_matches last (rres_of (run s orc)).
+Proof. exact c11_step_consistent_lemma. Qed.
+
+(* Non-vacuity: two clients (done after 2 and 4 polls), one host that never
+   finishes, one that finishes Ok: Ok after exactly 4 steps when the duration
+   allows 3 full steps before the last one, the duration error when it does
+   not, a software error in step 3 when a host returns Err there. *)
+Definition sw_done (k : nat) (o : outcome) : software :=
+  {| prog := fun j => if (j <? k)%nat then Pend else o; reads := fun _ => [] |}.
+Definition st0 (dur : N) (h : outcome) : state :=
+  exec (init 2 2 dur 0)
+    [AddHost (fun _ => sw_done 0 Pend); AddClient (sw_done 1 Ok_); AddHost (fun _ => sw_done 2 h);
+     AddClient (sw_done 3 Ok_)].
+Definition orc0 : nat -> list nat := fun i => if Nat.even i then [3; 2; 1; 0]%nat else [].
+Example c11_nonvacuous :
+  (rres_of (run (st0 6 Ok_) orc0), nsteps_of (run (st0 6 Ok_) orc0)) = (RunOk, 4%nat) /\
+  spec_ok (st0 6 Ok_) 4 /\ ~ spec_ok (st0 6 Ok_) 3 /\
+  (rres_of (run (st0 5 Ok_) orc0), nsteps_of (run (st0 5 Ok_) orc0)) = (RunTimeout, 3%nat) /\
+  (rres_of (run (st0 6 Err_) orc0), nsteps_of (run (st0 6 Err_) orc0)) = (RunErr, 3%nat).
+Proof.
+  split; [vm_compute; reflexivity|]. split.
+  - change 4%nat with (nsteps_of (run (st0 6 Ok_) orc0)).
+    apply (proj1 (c11_ok_steps (st0 6 Ok_) orc0 eq_refl eq_refl)).
+  - split; [|split; vm_compute; reflexivity].
+    intro H. pose proof (proj2 (c11_ok_steps (st0 6 Ok_) orc0 eq_refl eq_refl) 3%nat H) as C.
+    vm_compute in C. lia.
+Qed.
+
+Check c11_ok_iff : forall s orc,
+  0 < tick s -> existsb is_client (rts s) = true ->
+  (rres_of (run s orc) = RunOk <->
+   exists M, (1 <= M)%nat /\
+     Forall (fun r => running r = true -> is_client r = true -> done_ok_within r M) (rts s) /\
+     Forall (fun r => running r = true -> forall j, (j < M)%nat -> ~ fails_at r j) (rts s) /\
+     (M = 1%nat \/ elapsed s + N.of_nat (M - 1) * tick s <= duration s)).
+
 Print Assumptions run_terminates.
+Print Assumptions c11_ok_iff.
+Print Assumptions c11_ok_steps.
+Print Assumptions c11_no_clients.
+Print Assumptions c11_err_asap.
+Print Assumptions c11_timeout_asap.
+Print Assumptions c11_order_independent.
+Print Assumptions c11_hosts_dont_block.
+Print Assumptions c11_no_repoll.
+Print Assumptions c11_step_consistent.
+Print Assumptions c11_nonvacuous.
